@@ -189,10 +189,10 @@ fn one_copied(rep: &mut Report, len: usize, only: &Option<Vec<u8>>, wantdir: Opt
 }
 
 pub fn run(tier: Tier, rep: &mut Report) -> (String, String) {
-    let maxlen = tier.pick(9, 12, 4);
+    let maxlen = tier.pick(9, 12, 3);
     let mut jobs: Vec<(&str, usize, usize)> = Vec::new();
     for ty in ["u8", "unit", "String", "[u16;2]"] {
-        let ml = if ty == "u8" { maxlen } else { maxlen.min(tier.pick(7, 9, 3)) };
+        let ml = if ty == "u8" { maxlen } else { maxlen.min(tier.pick(7, 9, 2)) };
         for len in 0..=ml {
             for size in 0..=len + 1 {
                 jobs.push((ty, len, size));
